@@ -16,7 +16,7 @@ use crate::gen::{Classes, GenOpts};
 use crate::model::{hex, preview, unhex};
 use crate::mon::{FaultStyle, MonWriter, Sched, SchedReader, FLUSH_MARK, READ_MARK};
 use crate::rng::Rng;
-use crate::run::{guarded, is_prefix, run_slice, Verdict};
+use crate::run::{guarded, is_prefix, run_slice, Mode, Verdict};
 use crate::spell::Feats;
 
 fn case_json(kind: &str, input: &[u8], from: Option<Fmt>, to: Fmt, k: usize, extra: &str) -> Value {
@@ -122,6 +122,37 @@ pub fn short_writes(input: &[u8], from: Option<Fmt>, to: Fmt, seed: u64, max: us
     let log = wlog.borrow();
     if !v.is_ok() || log.bytes != clean {
         acc.violation(Violation { sig: format!("short writes {}->{}", fmts::from_name(from), to.name()), case: case_json("short", input, from, to, max, &seed.to_string()), observed: format!("{} [{}]", v.show(), preview(&log.bytes, 160)), expected: format!("Ok and exactly the fault-free output [{}]", preview(clean, 160)) });
+    }
+}
+
+/// Two calls on one Translator(to = TOML), the writer failing ONE write call of the first after k bytes
+/// (hard or transient kind) and accepting again afterwards: whatever the second call does, the accepted
+/// bytes stay a prefix of the fault-free output of the history (the first document; a second is refused).
+pub fn toml_second_call_after_fault(seed: u64, i: usize, acc: &mut Acc) {
+    use crate::run::{run_history, Call};
+    let mut rng = Rng::derive(seed, 0xc12f, i as u64);
+    let mut cl = Classes::default();
+    let mut feats = Feats::default();
+    let o = GenOpts { max_depth: 3, max_width: 3, ..GenOpts::toml() };
+    let mut calls = vec![];
+    for _ in 0..2 {
+        let d = crate::gen::gen_doc(&mut rng, &o, &mut cl);
+        let Some(d) = crate::gen::tomlify(&d) else { return };
+        let src = ALL[rng.below(4)];
+        let bytes = crate::spell::spell(src, &d, &mut rng, &mut feats, true);
+        calls.push(Call { input: bytes, from: Some(src), mode: if rng.chance(1, 2) { Mode::Slice } else { Mode::Reader(Sched::Fixed(7)) } });
+    }
+    let (cv, clean) = run_history(&calls, Fmt::Toml, MonWriter::new(), false);
+    if clean.bytes.is_empty() || !cv.first().map(|v| v.is_ok()).unwrap_or(false) {
+        return;
+    }
+    let k = rng.below(clean.bytes.len());
+    let kind = *rng.pick(&[std::io::ErrorKind::WouldBlock, std::io::ErrorKind::TimedOut, std::io::ErrorKind::Other, std::io::ErrorKind::BrokenPipe, std::io::ErrorKind::Interrupted]);
+    acc.evals += 1;
+    acc.count("toml_second_call_after_a_faulted_first_call");
+    let (verdicts, wlog) = run_history(&calls, Fmt::Toml, MonWriter::new().with_fault(k, FaultStyle::TransientOnce(kind)), false);
+    if verdicts.iter().any(|v| v.is_panic()) || !is_prefix(&wlog.bytes, &clean.bytes) {
+        acc.violation(Violation { sig: format!("TOML output: after a write fault ({kind:?}) in the first call a second call appends to the partial document"), case: json!({"fault": "toml_second_call", "seed": seed, "index": i}), observed: format!("fault after {k} bytes; calls returned [{}]; accepted [{}]", verdicts.iter().map(|v| v.class()).collect::<Vec<_>>().join(", "), preview(&wlog.bytes, 200)), expected: format!("a prefix of the fault-free output [{}]", preview(&clean.bytes, 160)) });
     }
 }
 
@@ -235,9 +266,12 @@ pub fn run(ctx: &Ctx) -> i32 {
     });
     let mut acc = acc;
     acc.merge(big);
-    let rule = format!("{} generated valid inputs (1-3 documents, each format in turn, every third YAML input re-encoded as UTF-16/32 with characters outside the BMP, <= 2 KiB plus a stratified sample above) x [explicit, detected] x rotating target, restricted to combinations whose fault-free run succeeds; for each: the reader fails and keeps failing after k bytes for EVERY k in 0..=len under rotating schedules [all, one, random]; the writer fails after accepting k bytes for EVERY k below the fault-free length in three styles (short accept then fail / reject the crossing write / accept nothing more: Ok(0)), from slice and reader input; 4 short-write patterns; {} heavy documents (thousands of entries, 64 KiB strings) to every target incl. TOML under 6 short-write patterns (at most 1000 .. 1 MiB bytes accepted per call) and 12 sampled writer faults; flush faults; distinct non-trivial = distinct (input, from, to) combinations", n, n_big);
+    let n_second = ctx.size(3000, 100000);
+    let second = crate::par::run(n_second, 16, |i, acc| toml_second_call_after_fault(seed, i, acc));
+    acc.merge(second);
+    let rule = format!("{} generated valid inputs (1-3 documents, each format in turn, every third YAML input re-encoded as UTF-16/32 with characters outside the BMP, <= 2 KiB plus a stratified sample above) x [explicit, detected] x rotating target, restricted to combinations whose fault-free run succeeds; for each: the reader fails and keeps failing after k bytes for EVERY k in 0..=len under rotating schedules [all, one, random]; the writer fails after accepting k bytes for EVERY k below the fault-free length in three styles (short accept then fail / reject the crossing write / accept nothing more: Ok(0)), from slice and reader input; 4 short-write patterns; {} heavy documents (thousands of entries, 64 KiB strings) to every target incl. TOML under 6 short-write patterns (at most 1000 .. 1 MiB bytes accepted per call) and 12 sampled writer faults; pairs of calls on one TOML translator whose first call meets one failing write (hard or transient kind): the second call may not append; flush faults; distinct non-trivial = distinct (input, from, to) combinations", n, n_big);
     ev::finish(
-        Finish { ctx, level: "fault_enumeration", rule, assumptions: vec!["for YAML output one trailing '---' header after the last complete document is allowed (the writer emits it before pulling the next document)".into(), "writer-fault error text is judged in C11, not here".into()], extra: serde_json::Map::new(), exhaustive: false, min_distinct: 200, must_reach: vec![("reader_faults_delivered".into(), 10000), ("writer_fault_points".into(), 10000), ("short_write_runs".into(), 500), ("flush_fault_runs".into(), 4), ("inputs_utf16_32_with_astral_characters".into(), 20), ("writer_fault_style_ZeroLen".into(), 2000), ("large_output_cases".into(), 12)] },
+        Finish { ctx, level: "fault_enumeration", rule, assumptions: vec!["for YAML output one trailing '---' header after the last complete document is allowed (the writer emits it before pulling the next document)".into(), "writer-fault error text is judged in C11, not here".into()], extra: serde_json::Map::new(), exhaustive: false, min_distinct: 200, must_reach: vec![("reader_faults_delivered".into(), 10000), ("writer_fault_points".into(), 10000), ("short_write_runs".into(), 500), ("flush_fault_runs".into(), 4), ("inputs_utf16_32_with_astral_characters".into(), 20), ("writer_fault_style_ZeroLen".into(), 2000), ("large_output_cases".into(), 12), ("toml_second_call_after_a_faulted_first_call".into(), 1000)] },
         acc,
     )
 }
@@ -245,6 +279,11 @@ pub fn run(ctx: &Ctx) -> i32 {
 pub fn replay(v: &Value) -> i32 {
     let c = &v["case"];
     let kind = c["fault"].as_str().unwrap_or("");
+    if kind == "toml_second_call" {
+        let mut acc = Acc::default();
+        toml_second_call_after_fault(c["seed"].as_u64().unwrap_or(0), c["index"].as_u64().unwrap_or(0) as usize, &mut acc);
+        return if acc.vio_count > 0 { println!("VIOLATION property=C12 replay=<this file> (reproduced): {}", acc.violations[0].observed); 1 } else { println!("not reproduced"); 0 };
+    }
     if kind.starts_with("flush") {
         let mut acc = Acc::default();
         for to in ALL {
